@@ -24,6 +24,7 @@ mod build;
 mod engine;
 mod model;
 pub mod spec;
+pub mod table_extra;
 
 use crate::runner::*;
 use crate::sqlite;
@@ -232,6 +233,7 @@ specification x every ordered pair of specifications (plus the orders of PRIMARY
     let n = ctx.tier.pick(8_000, 240_000);
     let max_steps = ctx.tier.pick(5, 7);
     ctx.run_proptest("random-histories", n, &|| case_strategy(max_steps), &check);
+    ctx.run_proptest("table-extra", ctx.tier.pick(3_000, 60_000), &table_extra::strategy, &table_extra::check);
     // self-test of the oracle's affinity rule: the engine's typeof() must agree with it everywhere
     let disagree: u64 = ctx.parts.iter().flat_map(|p| p.stats.undecided.iter()).filter(|(k, _)| k.starts_with("affinity-rule-vs-typeof")).map(|(_, v)| *v).sum();
     if disagree > 0 {
@@ -246,7 +248,11 @@ specification x every ordered pair of specifications (plus the orders of PRIMARY
     ctx.extra.insert("sqlite_version".into(), serde_json::json!(sqlite::version()));
 }
 
-pub fn replay(_part: &str, case: &J, obs: &mut Obs) -> R {
+pub fn replay(part: &str, case: &J, obs: &mut Obs) -> R {
+    if part == "table-extra" {
+        let c: table_extra::ExtraCase = from_case(case)?;
+        return table_extra::check(&c, obs);
+    }
     let c: Case = from_case(case)?;
     check(&c, obs)
 }
